@@ -32,7 +32,14 @@ type ssoRun struct {
 func runSSO(c SSOCase) (*ssoRun, error) {
 	spec := c.Spec
 	if c.PersistFault {
-		spec.Faults = append(append([]world.Fault(nil), spec.Faults...), world.Fault{Op: "CreateAuthRequest", Occurrence: 0, Kind: "error"})
+		kind := c.FaultKind
+		if kind == "" {
+			kind = "error"
+		}
+		spec.Faults = append(append([]world.Fault(nil), spec.Faults...), world.Fault{Op: "CreateAuthRequest", Occurrence: 0, Kind: kind})
+	}
+	if c.LookupFault != "" {
+		spec.Faults = append(append([]world.Fault(nil), spec.Faults...), world.Fault{Op: "GetEntityByID", Occurrence: 0, Kind: c.LookupFault})
 	}
 	if c.Noise {
 		spec = withNoise(spec)
@@ -288,6 +295,14 @@ func genC08Case(t *rapid.T) SSOCase {
 		c.Tr.RelayState = bigString(rapid.SampledFrom([]int{1500, 2100, 9000}).Draw(t, "relaylen"), "rs-")
 	}
 	c.PersistFault = rapid.IntRange(0, 5).Draw(t, "persistfault") == 0
+	if c.PersistFault {
+		c.FaultKind = rapid.SampledFrom([]string{"", "timeout", "canceled", "canceled"}).Draw(t, "persistfaultkind")
+	}
+	if rapid.IntRange(0, 9).Draw(t, "lookupfault") == 0 {
+		c.LookupFault = rapid.SampledFrom([]string{"error", "timeout", "canceled", "canceled", "notfound"}).Draw(t, "lookupfaultkind")
+	}
+	spec.RequestIDPrefix = rapid.SampledFrom([]string{"", "", "org1/req+", "q83vEjRWeJCrze8SNFZ4kA==", "id with blank&x=", "ünï#"}).Draw(t, "idprefix")
+	c.Spec = spec
 	c.GoneAtPersist = !c.PersistFault && rapid.IntRange(0, 5).Draw(t, "goneatpersist") == 0
 	c.Noise = rapid.IntRange(0, 2).Draw(t, "noise") == 0
 	if rapid.IntRange(0, 3).Draw(t, "history") == 0 {
@@ -354,7 +369,7 @@ func c08Oracle(c SSOCase, r *ssoRun) []*ev.Violation {
 		want := sp.LoginURL(id)
 		if r.Rep.Status != 303 {
 			vs = append(vs, ev.V("C08/persisted-without-login-redirect", "request persisted but status is %d (%s)", r.Rep.Status, r.Dec.Kind))
-		} else if got := r.Rep.Header.Get("Location"); got != want {
+		} else if got := r.Rep.Header.Get("Location"); !sameURL(got, want) { // net/http percent-encodes non-ASCII bytes of the header
 			vs = append(vs, ev.V("C08/login-redirect-wrong-id", "Location %q, want %q", got, want))
 		}
 		if carriesSAML {
